@@ -157,6 +157,32 @@ fn sess_handshake_dup(g: &mut Gen, variant: usize) {
     }
 }
 
+/// the random source returns reserved byte patterns first (the redraw loop of `Token::random`), for the
+/// connector's own token (0.7) and for the token the acceptor hands out; then a fair handshake and a chunk
+fn sess_reserved_draws(g: &mut Gen, draws: &str, who: usize) {
+    g.line("new");
+    if who == 0 {
+        g.line(&format!("a connect r={}", draws));
+    } else {
+        g.connect(0);
+    }
+    if !alive(g) {
+        return;
+    }
+    if who == 1 {
+        // the acceptor draws while it answers the first handshake datagram
+        g.deliver_with(0, 0, draws);
+    }
+    if !alive(g) {
+        return;
+    }
+    g.fair_suffix(30);
+    if alive(g) && g.w.eps[0].kind() == "Online" {
+        send(g, 0, true, &[0x6f, 0x6b]);
+        g.fair_suffix(30);
+    }
+}
+
 /// many small chunks queued without a flush (the 8-bit chunk counter), then a resend of all of them
 fn sess_many_small(g: &mut Gen, vital: bool, size: usize, count: usize) {
     g.line("new");
@@ -450,6 +476,10 @@ fn gen_all(tier: &str, seed: u64, out: &mut dyn std::io::Write) {
         sess_api(&mut g);
         for v in 0..8 {
             sess_handshake_dup(&mut g, v);
+        }
+        for d in RESERVED_DRAWS {
+            sess_reserved_draws(&mut g, d, 0);
+            sess_reserved_draws(&mut g, d, 1);
         }
         for &(vital, size, count) in &[(false, 0usize, 700usize), (false, 1, 300), (true, 0, 480), (true, 1, 300), (true, 3, 256), (false, 4, 255)] {
             sess_many_small(&mut g, vital, size, count);
